@@ -339,6 +339,52 @@ func ruleWireFor(w *World, r *RuleResult) {
 			}
 		}
 	}
+	// (3b) and conversely: in a state that keeps the nesting depth, every inner 'for' is counted
+	// and every inner 'rof' either closes a nested block or (at depth 0) ends the block
+	for _, s := range m.states {
+		ps, _ := w.Paths(s)
+		tracks := false
+		for _, p := range ps {
+			for _, e := range p.Events {
+				if e.Kind == "store" && e.LV.Op == "sel" && e.LV.S == "forDepth" && linearOf(e.Val).Const != 0 && len(linearOf(e.Val).Coef) == 1 {
+					tracks = true
+				}
+			}
+		}
+		if !tracks {
+			continue
+		}
+		for _, p := range ps {
+			if p.End != "ret" {
+				continue
+			}
+			word := ""
+			for _, cd := range p.Conds {
+				if cd.Atom.Op == "eq" && cd.Val && cd.Atom.A[1].Op == "str" && cd.Atom.A[0].contains(func(x *T) bool { return x.Op == "call" && x.S == "strings.ToLower" }) {
+					word = cd.Atom.A[1].S
+				}
+			}
+			delta := int64(0)
+			for _, e := range p.Events {
+				if e.Kind == "store" && e.LV.Op == "sel" && e.LV.S == "forDepth" {
+					delta += linearOf(e.Val).Const
+				}
+			}
+			pos := w.Pos(s.Pos())
+			if len(p.Conds) > 0 {
+				pos = w.Pos(p.Conds[len(p.Conds)-1].Pos)
+			}
+			switch word {
+			case "for":
+				d.add(delta == 1, s.Name()+"/depth/every-for", pos, "every nested 'for' header raises the nesting depth", "a path that sees a nested 'for' header does not raise the nesting depth: the nested block's 'rof' then closes the outer block (e.g. a zero-count block containing a nested block)")
+			case "rof":
+				atZero := hasCond(p, func(a *T, v bool) bool {
+					return a.Op == "lt" && !v && a.A[0].IsConstVal(0) && stripConv(a.A[1]).Op == "sel" && stripConv(a.A[1]).S == "forDepth"
+				})
+				d.add(delta == -1 || atZero, s.Name()+"/depth/every-rof", pos, "every 'rof' lowers the nesting depth or, at depth 0, ends the block", "a path that sees 'rof' at depth > 0 does not lower the nesting depth")
+			}
+		}
+	}
 	// (4)+(5) driver wiring in CompileWarrior
 	cw := w.LibFunc("CompileWarrior")
 	fe := w.LibFunc("ForExpand")
